@@ -64,7 +64,49 @@ impl TryFrom<&[AST]> for Context {
             context.functions.insert(func.clone());
         });
 
-        context.into_with_primitives()?.into_with_std_lib()
+        context
+            .into_with_primitives()?
+            .into_with_std_lib()?
+            .without_inheritance_cycle()
+    }
+}
+
+impl Context {
+    /// Class lookup walks up the parents of a class, so a class which is its own
+    /// ancestor would make every such walk endless.
+    fn without_inheritance_cycle(self) -> TypeResult<Self> {
+        let mut cyclic = vec![];
+        for class in &self.classes {
+            let (mut seen, mut todo) = (HashSet::new(), vec![class]);
+            while let Some(current) = todo.pop() {
+                for parent in &current.parents {
+                    if parent.name.variant.name == class.name.name {
+                        cyclic.push(class);
+                        continue;
+                    }
+
+                    let ancestor = self
+                        .classes
+                        .iter()
+                        .find(|c| c.name.name == parent.name.variant.name);
+                    if let Some(ancestor) = ancestor {
+                        if seen.insert(&ancestor.name.name) {
+                            todo.push(ancestor);
+                        }
+                    }
+                }
+            }
+        }
+
+        if cyclic.is_empty() {
+            return Ok(self);
+        }
+        cyclic.sort_by_key(|c| (c.pos.start.line, c.pos.start.pos, c.name.name.clone()));
+        cyclic.dedup();
+        Err(cyclic
+            .iter()
+            .map(|c| TypeErr::new(c.pos, &format!("{} cannot be its own ancestor", c.name)))
+            .collect())
     }
 }
 
